@@ -444,6 +444,7 @@ func (txn *Txn) InsertKey(key string, fn func(Row) error) error {
 	}
 
 	// If not found, insert at a new index
+	verifYield(9, 0)
 	idx, err := txn.insert(fn, 0)
 	txn.bufferFor(txn.owner.pk.name).PutString(commit.Put, idx, key)
 	return err
@@ -460,6 +461,7 @@ func (txn *Txn) UpsertKey(key string, fn func(Row) error) error {
 	}
 
 	// If not found, insert at a new index
+	verifYield(9, 0)
 	idx, err := txn.insert(fn, 0)
 	txn.bufferFor(txn.owner.pk.name).PutString(commit.Put, idx, key)
 	return err
@@ -530,6 +532,7 @@ func (txn *Txn) commit() {
 		if changedRows {
 			txn.commitMarkers(chunk, fill, markers)
 		}
+		verifYield(3, uint64(chunk))
 
 		// Attemp to update, if nothing was changed we're done
 		updated := txn.commitUpdates(chunk)
@@ -563,6 +566,7 @@ func (txn *Txn) commitUpdates(chunk commit.Chunk) (updated bool) {
 			continue // No updates for this column
 		}
 
+		verifYield(4, uint64(chunk))
 		// Get the column to update
 		columns, exists := txn.owner.cols.LoadWithIndex(u.Column)
 		if !exists || len(columns) == 0 {
